@@ -1645,14 +1645,21 @@ impl SystemState {
         match target.0 {
             0 => todo!("wait target {}", target),
             -1 => {
-                // any child
-                let mut result = None;
+                // any child: prefer one whose state change has not been
+                // reported yet, then one that is still alive. A child that has
+                // already been reaped is chosen only if there is no other, so
+                // that `wait` fails with ECHILD only when nothing is left to
+                // wait for.
+                let mut result: Option<(Pid, &mut Process)> = None;
                 for (pid, process) in &mut self.processes {
                     if process.ppid == parent_pid {
-                        let changed = process.state_has_changed();
-                        result = Some((*pid, process));
-                        if changed {
-                            break;
+                        if process.state_has_changed() {
+                            return Some((*pid, process));
+                        }
+                        if result.as_ref().is_none_or(|(_, chosen)| {
+                            !chosen.state().is_alive() && process.state().is_alive()
+                        }) {
+                            result = Some((*pid, process));
                         }
                     }
                 }
